@@ -350,6 +350,16 @@ impl Entry {
     }
 }
 
+/// The state of the calling thread when the (outer) emission is made.
+#[derive(Serialize, Deserialize, Debug, Clone, Copy, PartialEq, Default)]
+pub enum ThreadState {
+    #[default]
+    Normal,
+    /// from the `Drop` of a guard that runs while the thread unwinds from a (scripted, later caught) panic:
+    /// `std::thread::panicking()` is true for the whole emission, nested emissions included
+    Unwinding,
+}
+
 #[derive(Serialize, Deserialize, Debug, Clone)]
 pub struct Case {
     pub evt: EvSpec,
@@ -368,6 +378,9 @@ pub struct Case {
     pub macro_b: u8,
     /// pass the event by value instead of by reference where the entry point allows it
     pub by_value: bool,
+    /// thread state in which the emission through the runtime is made
+    #[serde(default)]
+    pub state: ThreadState,
 }
 
 // ---------------------------------------------------------------------------------------------
